@@ -57,6 +57,30 @@ def run(rep, tier, rng):
             gdraw = draws.randn(d)
             add(f"rel_scaled_draw {algs.enc_vec(v)} {algs.enc_vec(gdraw)} {d} {REL}", {"op": "expected-unit-length", "d": d, "v": v.tolist()},
                 ("expected", d, seed, j))
+        # ---- every way of consuming a generator yields the same vectors: next(g), g.next(), iteration ------------
+        import itertools as _it
+        factories = {"UnitLengthVectors": lambda r: vg.UnitLengthVectors(d, rng=r), "ExpectedUnitLengthVectors": lambda r: vg.ExpectedUnitLengthVectors(d, rng=r),
+                     "OrthonormalVectors": lambda r: vg.OrthonormalVectors(d, rng=r), "AxisAlignedVectors": lambda r: vg.AxisAlignedVectors(d),
+                     "UnitaryVectors(HRR)": lambda r: vg.UnitaryVectors(d, H, rng=r),
+                     "VectorsWithProperties({'unitary'}, HRR)": lambda r: vg.VectorsWithProperties(d, {"unitary"}, H, rng=r)}
+        for gname, fac in factories.items():
+            nv = 1 if d == 1 else 2
+            via_next = c.outcome(lambda: [np.array(next(g_)) for g_ in [fac(np.random.RandomState(seed))] for _ in range(nv)])
+            via_iter = c.outcome(lambda: [np.array(v_) for v_ in _it.islice(iter(fac(np.random.RandomState(seed))), nv)])
+            gm = fac(np.random.RandomState(seed))
+            via_meth = c.outcome(lambda: [np.array(gm.next()) for _ in range(nv)]) if hasattr(gm, "next") else via_next
+            rep.case(("entry-points", gname, d, seed))
+            rep.count("generator-entry-points-agree")
+            seqs = [via_next, via_iter, via_meth]
+            if any(o_[0] != "ok" for o_ in seqs) or not all(len(o_[1]) == nv and all(np.array_equal(a_, b_) for a_, b_ in zip(o_[1], via_next[1])) for o_ in seqs):
+                rep.violation(f"{gname}(d={d}): next(g), iteration and g.next() do not deliver the same vectors from equal random states",
+                              {"case": {"generator": gname, "d": d, "seed": seed},
+                               "observed": {k_: (o_[0] if o_[0] != "ok" else [np.round(x_, 4).tolist() for x_ in o_[1]]) for k_, o_ in zip(("next(g)", "iteration", "g.next()"), seqs)},
+                               "python": "import numpy as np\nfrom nengo_spa import vector_generation as vg\nfrom nengo_spa.algebras.hrr_algebra import HrrAlgebra\n"
+                                         f"d, seed, H = {d}, {seed}, HrrAlgebra()\nmk = lambda r: vg.{gname.split('(')[0]}" +
+                                         ("(d)" if gname.startswith("Axis") else ("(d, H, rng=r)" if gname.startswith("Unitary") else ("(d, {'unitary'}, H, rng=r)" if gname.startswith("VectorsWith") else "(d, rng=r)"))) +
+                                         "\na = next(mk(np.random.RandomState(seed)))\ng = mk(np.random.RandomState(seed))\nb = g.next() if hasattr(g, 'next') else next(g)\n"
+                                         "assert np.array_equal(a, b), (a, b)\n"})
         # ---- OrthonormalVectors -------------------------------------------------------------
         if d <= (9 if quick else 24):
             go = vg.OrthonormalVectors(d, rng=np.random.RandomState(seed))
